@@ -108,6 +108,14 @@ func scenarios(tier string) []*Scenario {
 	add(Scenario{Args: []string{"GSchema"}})
 	add(Scenario{Args: []string{"Emb:EmbeddedMock"}})
 	add(Scenario{Args: []string{"GSchema", "Schema"}, Stub: true})
+	// naming shapes and variadic tails without results (in place: Named has an unexported method)
+	for _, f := range [][3]bool{{false, false, false}, {true, false, true}, {false, true, true}, {true, true, false}} {
+		add(Scenario{Args: []string{"Named", "Logger"}, Stub: f[0], SkipEnsure: f[1], Resets: f[2]})
+	}
+	add(Scenario{Args: []string{"Logger"}, PkgMode: "other", Stub: true})
+	// mocks sharing method objects: the same interface twice and an embedded interface next to its embedder
+	add(Scenario{Args: []string{"Base", "Emb:EmbeddedMock", "Base:BaseTwo"}})
+	add(Scenario{Args: []string{"Emb:EmbeddedMock", "Base", "Schema", "Schema:SecondSchemaMock"}, Stub: true, Resets: true})
 	// witnesses of known findings (see /verif/KNOWN_FINDINGS.jsonl)
 	add(Scenario{Src: "kfcomparable", Args: []string{"Keyed"}, OnlyProps: []string{"C09"}})
 	return out
